@@ -45,11 +45,26 @@ def _generate_model_code(
     imports: list[str] | None = None,
     end: str | None = None,
     free_parameters: list[str] | None = None,
+    tuple_suffix: str = "",
 ) -> str:
     source: list[str] = []
     # Model components
     variables = model.get_initial_conditions()
-    parameters = model.get_parameter_values()
+    # A copy, free parameters are removed from it below. Parameters defined by an
+    # initial assignment are emitted with their resolved value
+    parameters = {
+        k: float(v)
+        for k, v in model.get_args(
+            include_time=False,
+            include_variables=False,
+            include_parameters=True,
+            include_derived_parameters=False,
+            include_derived_variables=False,
+            include_reactions=False,
+            include_surrogate_variables=False,
+            include_surrogate_fluxes=False,
+        ).items()
+    }
 
     if imports is not None:
         source.extend(imports)
@@ -60,7 +75,11 @@ def _generate_model_code(
         source.append(model_fn.format(n=len(variables)))
 
     if len(variables) > 0:
-        source.append(variables_template.format(", ".join(variables)))
+        source.append(
+            variables_template.format(
+                ", ".join(variables) + (tuple_suffix if len(variables) == 1 else "")
+            )
+        )
 
     # Parameters
     if free_parameters is not None:
@@ -73,8 +92,32 @@ def _generate_model_code(
             )
         )
 
-    # Derived
-    for name, derived in model.get_raw_derived().items():
+    # Derived and reactions in dependency order (not in declaration order)
+    if (cache := model._cache) is None:  # noqa: SLF001
+        cache = model._create_cache()  # noqa: SLF001
+    raw_derived = model.get_raw_derived()
+    raw_reactions = model.get_raw_reactions()
+    order = [i for i in cache.order if i in raw_derived or i in raw_reactions]
+
+    for name in order:
+        if (derived := raw_derived.get(name)) is None:
+            rxn = raw_reactions[name]
+            expr = custom_fns.get(name)
+            if expr is None:
+                try:
+                    expr = fn_to_sympy(
+                        rxn.fn,
+                        origin=name,
+                        model_args=list_of_symbols(rxn.args),
+                    )
+                except KeyError:
+                    _LOGGER.warning("Failed to parse %s", name)
+            if expr is None:
+                msg = f"Unable to parse fn for reaction value '{name}'"
+                raise ValueError(msg)
+            source.append(assignment_template.format(k=name, v=sympy_inline_fn(expr)))
+            continue
+
         expr = custom_fns.get(name)
         if expr is None:
             expr = fn_to_sympy(
@@ -84,23 +127,6 @@ def _generate_model_code(
             )
         if expr is None:
             msg = f"Unable to parse fn for derived value '{name}'"
-            raise ValueError(msg)
-        source.append(assignment_template.format(k=name, v=sympy_inline_fn(expr)))
-
-    # Reactions
-    for name, rxn in model.get_raw_reactions().items():
-        expr = custom_fns.get(name)
-        if expr is None:
-            try:
-                expr = fn_to_sympy(
-                    rxn.fn,
-                    origin=name,
-                    model_args=list_of_symbols(rxn.args),
-                )
-            except KeyError:
-                _LOGGER.warning("Failed to parse %s", name)
-        if expr is None:
-            msg = f"Unable to parse fn for reaction value '{name}'"
             raise ValueError(msg)
         source.append(assignment_template.format(k=name, v=sympy_inline_fn(expr)))
 
@@ -122,8 +148,13 @@ def _generate_model_code(
         _LOGGER.warning(msg)
 
     # Return
-    ret_order = [i for i in variables if i in diff_eqs]
-    ret = ", ".join(f"d{i}dt" for i in ret_order) if len(diff_eqs) > 0 else "()"
+    # One entry per variable in declaration order, 0 for variables without reactions
+    if len(diff_eqs) > 0:
+        ret = ", ".join(f"d{i}dt" if i in diff_eqs else "0.0" for i in variables)
+        if len(variables) == 1:
+            ret += tuple_suffix
+    else:
+        ret = "()"
     source.append(return_template.format(ret))
 
     if end is not None:
@@ -159,6 +190,7 @@ def generate_model_code_py(
         assignment_template="    {k}: float = {v}",
         sympy_inline_fn=sympy_to_inline_py,
         return_template="    return {}",
+        tuple_suffix=",",  # a single variable still is a sequence of one
         end=None,
         free_parameters=free_parameters,
         custom_fns={} if custom_fns is None else custom_fns,
